@@ -18,7 +18,8 @@ EXTENDS Deriv, Json, SequencesExt
 
 CONSTANTS Slots,        \* e.g. {1, 2}
           MaxHist,      \* length of the printed behaviours
-          LaVals, MatchVals, DbgVals, FlagVals
+          LaVals, MatchVals, DbgVals, FlagVals,
+          MaxFaults     \* C17: how many calls of a behaviour may suffer an allocation failure
 
 LaWide == {-1, 0, 1, 2, 3}    \* TLC configuration files cannot hold negative literals
 
@@ -59,15 +60,16 @@ SentTab == [d \in DefIds |-> [w \in InputPool |->
               THEN IsSentence(Gram(Defs[d]), w) ELSE FALSE]]
 
 (* ---------- state ---------- *)
-VARIABLES obj, hist
+VARIABLES obj, hist, faults
 
 Dead == [life |-> "dead", def |-> 0, la |-> 0, one |-> 0, cost |-> 0, rec |-> 0, match |-> 0, dbg |-> 0, err |-> 0]
 Fresh == [life |-> "undef", def |-> 0, la |-> 1, one |-> 1, cost |-> 0, rec |-> 1, match |-> 3, dbg |-> 0, err |-> 0]
 
 Alive(s) == obj[s].life # "dead"
+Usable(s) == obj[s].life \in {"undef", "ok"}
 Clamp(v) == IF v < 0 THEN 0 ELSE IF v > 2 THEN 2 ELSE v
 
-Log(e) == hist' = Append(hist, e)
+Log(e) == hist' = Append(hist, e) /\ UNCHANGED faults
 
 Create(s) == /\ ~Alive(s)
              /\ obj' = [obj EXCEPT ![s] = Fresh]
@@ -77,18 +79,18 @@ Free(s) == /\ Alive(s)
            /\ obj' = [obj EXCEPT ![s] = Dead]
            /\ Log([op |-> "free", s |-> s])
 
-SetLa(s, v) == /\ Alive(s)
+SetLa(s, v) == /\ Usable(s)
                /\ obj' = [obj EXCEPT ![s].la = Clamp(v)]
                /\ Log([op |-> "set", s |-> s, which |-> "la", v |-> v, prev |-> obj[s].la, err |-> obj[s].err])
 SetFlag(s, f, v) ==
-  /\ Alive(s)
+  /\ Usable(s)
   /\ obj' = [obj EXCEPT ![s] = [obj[s] EXCEPT ![f] = v]]
   /\ Log([op |-> "set", s |-> s, which |-> f, v |-> v, prev |-> obj[s][f], err |-> obj[s].err])
 
 (* A definition call: succeeds iff the definition has no documented defect; a failing call
    returns one of the defects present and leaves the object unusable. *)
 Define(s, d, strict, text) ==
-  /\ Alive(s)
+  /\ Usable(s)
   /\ LET ds == DefRcSet[d][strict] IN
      \/ /\ ds = {}
         /\ obj' = [obj EXCEPT ![s].life = "ok", ![s].def = d]
@@ -98,13 +100,13 @@ Define(s, d, strict, text) ==
         /\ Log([op |-> "define", s |-> s, d |-> d, strict |-> strict, text |-> text, rcs |-> SetToSeq(ds), err |-> -1])
 
 DefineBadText(s, strict) ==
-  /\ Alive(s)
+  /\ Usable(s)
   /\ obj' = [obj EXCEPT ![s].life = "undef", ![s].def = 0, ![s].err = 3]
   /\ Log([op |-> "define", s |-> s, d |-> BadText, strict |-> strict, text |-> TRUE, rcs |-> <<3>>, err |-> 3])
 
 (* yaep_parse.  The possible outcomes depend on the slot only. *)
 Parse(s, w, mode) ==
-  /\ Alive(s)
+  /\ Usable(s)
   /\ LET o == obj[s]
          undefined == o.life # "ok"
          nomem == mode = "nf"
@@ -119,7 +121,36 @@ Parse(s, w, mode) ==
                 sent |-> sent, rec |-> o.rec, la |-> o.la, one |-> o.one, cost |-> o.cost, match |-> o.match,
                 err |-> IF rcs = {0} THEN o.err ELSE IF Cardinality(rcs) = 1 THEN CHOOSE x \in rcs : TRUE ELSE -1])
 
-Init == obj = [s \in Slots |-> Dead] /\ hist = <<>>
+(* ---------- allocation failure (C17) ----------
+   Any single internal memory request of yaep_create_grammar, of a definition or of yaep_parse may
+   fail.  The call then returns NULL respectively YAEP_NO_MEMORY; nothing else is promised about the
+   object except that it can still be freed ("faulted": only Free is enabled), and the other slots
+   are untouched.  Whether the request chosen by the replay really happens inside the call is not known
+   to the specification, so the entry also carries the results of the undisturbed call. *)
+Faulted == [Dead EXCEPT !.life = "faulted"]
+CanFault == faults < MaxFaults
+
+FCreate(s) == /\ CanFault /\ ~Alive(s)
+              /\ obj' = [obj EXCEPT ![s] = Faulted]
+              /\ hist' = Append(hist, [op |-> "create", s |-> s, err |-> 0, fault |-> TRUE])
+              /\ faults' = faults + 1
+
+FDefine(s, d, strict, text) ==
+  /\ CanFault /\ Alive(s) /\ obj[s].life # "faulted"
+  /\ obj' = [obj EXCEPT ![s] = Faulted]
+  /\ hist' = Append(hist, [op |-> "define", s |-> s, d |-> d, strict |-> strict, text |-> text,
+                           rcs |-> IF DefRcSet[d][strict] = {} THEN <<0>> ELSE SetToSeq(DefRcSet[d][strict]), err |-> -1, fault |-> TRUE])
+  /\ faults' = faults + 1
+
+FParse(s, w, mode) ==
+  /\ CanFault /\ obj[s].life = "ok" /\ mode \in {"ff", "nn"} /\ Range(w) \subseteq TermNames(Defs[obj[s].def])
+  /\ obj' = [obj EXCEPT ![s] = Faulted]
+  /\ hist' = Append(hist, [op |-> "parse", s |-> s, d |-> obj[s].def, w |-> w, mode |-> mode, rcs |-> <<0>>,
+                           sent |-> SentTab[obj[s].def][w], rec |-> obj[s].rec, la |-> obj[s].la, one |-> obj[s].one,
+                           cost |-> obj[s].cost, match |-> obj[s].match, err |-> -1, fault |-> TRUE])
+  /\ faults' = faults + 1
+
+Init == obj = [s \in Slots |-> Dead] /\ hist = <<>> /\ faults = 0
 
 Step ==
   /\ Len(hist) < MaxHist
@@ -132,20 +163,23 @@ Step ==
        \/ \E d \in DefIds, st \in BOOLEAN, tx \in BOOLEAN : Define(s, d, st, tx)
        \/ \E st \in BOOLEAN : DefineBadText(s, st)
        \/ \E w \in InputPool, m \in AllocModes : Parse(s, w, m)
+       \/ FCreate(s)
+       \/ \E d \in DefIds, st \in BOOLEAN, tx \in BOOLEAN : FDefine(s, d, st, tx)
+       \/ \E w \in InputPool, m \in AllocModes : FParse(s, w, m)
 
 (* The behaviour is printed by an action (not an invariant) so that in simulation mode it is printed
    once, for the state the walk really reached. *)
 Finish == /\ Len(hist) = MaxHist
           /\ PrintT(<<"VEC", ToJson([hist |-> hist])>>)
           /\ hist' = Append(hist, [op |-> "end", s |-> 0])
-          /\ UNCHANGED obj
+          /\ UNCHANGED <<obj, faults>>
 
 Next == Step \/ Finish
 
-Spec == Init /\ [][Next]_<<obj, hist>>
+Spec == Init /\ [][Next]_<<obj, hist, faults>>
 
 (* ---------- invariants of the machine ---------- *)
-TypeOK == \A s \in Slots : obj[s].life \in {"dead", "undef", "ok"} /\ obj[s].la \in 0..2
+TypeOK == \A s \in Slots : obj[s].life \in {"dead", "undef", "ok", "faulted"} /\ obj[s].la \in 0..2
 DefinedIffOk == \A s \in Slots : (obj[s].life = "ok") <=> (obj[s].def # 0)
 OkMeansAccepted == \A s \in Slots : obj[s].life = "ok" => \E st \in BOOLEAN : DefRcSet[obj[s].def][st] = {}
 (* error code is 0 until some call on the object has failed *)
@@ -155,5 +189,5 @@ ErrZeroOnFresh == \A s \in Slots : obj[s].err # 0 =>
 EmitPools == Len(hist) = 0 => PrintT(<<"VEC", ToJson([defs |-> Defs, inputs |-> SetToSeq(InputPool)])>>)
 
 (* view for exhaustive checking: the history is an observation, not state *)
-View == obj
+View == <<obj, faults>>
 =============================================================================
